@@ -11,6 +11,18 @@ use std::cell::RefCell;
 
 thread_local! {
     static SEEDED: RefCell<Option<StdRng>> = RefCell::new(None);
+    static DRAWS: std::cell::Cell<u64> = std::cell::Cell::new(0);
+}
+
+/// Number of times the sampler's generator has been asked for random bits on the current thread
+/// (seeded or not). A harness reads it before and after an event to learn whether the planner
+/// drew a new random sample in between.
+pub fn draws() -> u64 {
+    DRAWS.with(|d| d.get())
+}
+
+fn count_draw() {
+    DRAWS.with(|d| d.set(d.get().wrapping_add(1)));
 }
 
 /// Install a seeded generator for the sampler on the current thread.
@@ -86,16 +98,19 @@ impl<'a, R: RngCore> HookRng<'a, R> {
 
 impl<'a, R: RngCore> RngCore for HookRng<'a, R> {
     fn next_u32(&mut self) -> u32 {
+        count_draw();
         let v = SEEDED.with(|s| s.borrow_mut().as_mut().map(|r| r.next_u32()));
         v.unwrap_or_else(|| self.fallback.next_u32())
     }
 
     fn next_u64(&mut self) -> u64 {
+        count_draw();
         let v = SEEDED.with(|s| s.borrow_mut().as_mut().map(|r| r.next_u64()));
         v.unwrap_or_else(|| self.fallback.next_u64())
     }
 
     fn fill_bytes(&mut self, dest: &mut [u8]) {
+        count_draw();
         let done = SEEDED.with(|s| {
             s.borrow_mut().as_mut().map(|r| r.fill_bytes(dest)).is_some()
         });
